@@ -45,7 +45,7 @@ def gen(run):
                 nm = (fn[:-1] if len(fn) > 1 else fn) + b'.' + ts()
             if not nm or nm in (b'.', b'..') or b'/' in nm or b'\x00' in nm or len(nm) > 200:
                 continue
-            kind = 0 if rng.random() < 0.8 else rng.choice([1, 2])
+            kind = 0 if rng.random() < 0.8 else rng.choice([1, 2, 3])
             ents[nm] = (kind, off())
         if rng.random() < 0.3:   # the file currently being written: own name, fresh mtime
             ents[fn + b'.' + ts()] = (0, rng.choice([0, -1, -1800]))
